@@ -281,6 +281,7 @@ def run_check(prop, tier='quick', seed=0, only=None, nproc=None, verbose=True):
     inconclusive = []
     harness_errors = []
     violations = []
+    extra_violations = [0]
     known_hits = {}
     n_replays = 0
     n_validated = 0
@@ -341,6 +342,8 @@ def run_check(prop, tier='quick', seed=0, only=None, nproc=None, verbose=True):
             inconclusive.append('%s: solver unknown x%d %s' % (key, st['unknown'], r.get('unknown_notes')))
             o['verdict'] = 'inconclusive'
         for cex in r.get('cex', []):
+            if extra_violations[0] > 40:
+                continue        # enough evidence of the same breakage
             n_replays += 1
             rep = replay_subprocess(modname, job, cex)
             if not rep.get('reproduced') and rep.get('abstract'):
@@ -364,6 +367,11 @@ def run_check(prop, tier='quick', seed=0, only=None, nproc=None, verbose=True):
                     for r2 in run_jobs(modname, [j2], nproc=nproc):
                         handle_result(r2, depth + 1)
                     return
+                continue
+            if any(v[3].get('signature') == sig for v in violations) or len(violations) >= 8:
+                # one replay file per distinct signature is enough
+                o['verdict'] = 'VIOLATED'
+                extra_violations[0] += 1
                 continue
             path = os.path.join(VERIF, 'replays', prop)
             os.makedirs(path, exist_ok=True)
@@ -447,7 +455,7 @@ def run_check(prop, tier='quick', seed=0, only=None, nproc=None, verbose=True):
         },
         'assumptions': assumptions,
         'wall_s': wall,
-        'violations': len(violations),
+        'violations': len(violations) + extra_violations[0],
     }
     if ev['coverage']['states'] < 1:
         ev['coverage']['states'] = 1 if status == 0 else 1
